@@ -121,6 +121,12 @@ def variations(fdb: dict, rawf: dict, rng: random.Random, tier: str):
                 ("far", attr, val((1 << n) * 1000 + 7)), ("far-neg", attr, val(-(1 << n) * 1000 - 7)),
                 ("wrap", attr, val((1 << n) + max(lo, 0) + 1)),
                 ("absent", attr, None), ("nan", attr, float("nan")), ("inf", attr, float("inf"))]
+        # the same number given as int and as float (a whole number between two steps of a coarse integer
+        # resolution, a tick count given as a float)
+        for cls, add in (("between", Fraction(3, 10)), ("between-hi", Fraction(7, 10)), ("half", Fraction(1, 2)), ("mid", Fraction(0))):
+            x = (Fraction(mid) + add) * res + off
+            if x.denominator == 1:
+                out += [(cls + "/int", attr, int(x)), (cls + "/float", attr, float(x))]
         if tier == "thorough":
             out += [(f"rand{k}", attr, val(rng.randint(rmin, rmax), Fraction(rng.randint(0, 99), 100))) for k in range(6)]
         if t in ("TIME", "DURATION"):
